@@ -56,6 +56,23 @@ Theorem C13_spec : forall lo f v, wf_field f = true -> lo <= v ->
 Proof. exact match_field_spec. Qed.
 Print Assumptions C13_spec.
 
+(* the set-expansion reading (each field expanded to the values it names inside its range, as Vixie cron's
+   bit sets) agrees with the matcher on every value of the range *)
+Theorem C13_expand_spec : forall lo hi f v, 0 <= lo -> lo <= v <= hi -> wf_field f = true ->
+  memZ v (expand_field lo hi f) = match_field lo f v.
+Proof. exact expand_field_spec. Qed.
+Print Assumptions C13_expand_spec.
+
+(* the Boolean form evaluated on every implementation observation (built on the set expansion, not on the
+   matcher) is the statement: "returned 0 and the expression matches the minute of the shifted clock, or
+   returned None and it does not" *)
+Theorem C13_check_is_statement : forall e sh now obs, wf_expr e = true ->
+  (C13_check e sh now obs = true <->
+   (obs = Some 0 /\ Matches e (fields_of (floor_minute (now + sh)))) \/
+   (obs = None /\ ~ Matches e (fields_of (floor_minute (now + sh))))).
+Proof. exact check_is_statement. Qed.
+Print Assumptions C13_check_is_statement.
+
 Section Zones.
   Variable tzoff : nat -> Z -> Z.     (* pytz: UTC offset of zone z at instant t, microseconds *)
 
@@ -92,12 +109,26 @@ Section Zones.
     (cron_delay tzoff e off now = Some 0 /\ cron_due tzoff e off now = true) \/
     (cron_delay tzoff e off now = None /\ cron_due tzoff e off now = false).
   Proof. exact (delay_cases tzoff). Qed.
+
+  Theorem C13_model_meets_statement : forall e off now, wf_expr e = true ->
+    C13_check e (shift tzoff off now) now (cron_delay tzoff e off now) = true.
+  Proof. exact (model_meets_check tzoff). Qed.
+
+  (* read on the calendar: when the shifted clock shows y-m-d h:mi (any second of it), due <-> the expression
+     matches that civil minute, with the weekday given by Zeller's congruence *)
+  Theorem C13_due_at_civil : forall e off now y m d h mi s, wf_expr e = true ->
+    1 <= m <= 12 -> 1 <= d <= days_in_month y m -> 0 <= h <= 23 -> 0 <= mi <= 59 -> 0 <= s < MIN ->
+    now + shift tzoff off now = (days_from_civil y m d * 1440 + h * 60 + mi) * MIN + s ->
+    (cron_due tzoff e off now = true <-> Matches e (mkF mi h d m (weekday_of_civil y m d) y)).
+  Proof. exact (due_at_civil tzoff). Qed.
 End Zones.
 Print Assumptions C13_due_iff.
 Print Assumptions C13_seconds_irrelevant.
 Print Assumptions C13_seconds_irrelevant_whole_minutes.
 Print Assumptions C13_utc_default.
 Print Assumptions C13_delay.
+Print Assumptions C13_model_meets_statement.
+Print Assumptions C13_due_at_civil.
 
 (* ------------------------------------------------------------------ non-vacuity *)
 (* 2026-03-29T01:30:00Z, Europe/Berlin just after the spring-forward (+2 h): local 03:30 on Sunday 29 March *)
